@@ -93,7 +93,8 @@ def search(families=('all',), variants=('default', 'sse42', 'swar', 'avx2ct'), d
         r = rs[v]
         out['evaluations'] += r['evaluations']
         out['per_backend'][v] = dict(evaluations=r['evaluations'], findings=len(r['findings']), error=r['error'])
-        if r.get('error') and not out['error']:
+        if r.get('error') and not out['error'] and (v == 'default' or 'build failed' not in r['error']):
+            # a non-default back-end build that does not compile is a C13 matter (tools/builds.py reports it); it does not block the others
             out['error'] = r['error']
         if r.get('crashed'):
             out['crashed'] = r['crashed']
